@@ -245,6 +245,126 @@ def history_worker(item):
     return dict(name=name, errs=viol, n=n, classes=len(classes), ops=faultfs.describe(rec["ops"]), harness=False)
 
 
+def real_kill_worker(item):
+    """Thorough: kill a real child process (os._exit) just before each file operation of the
+    history's call and run the same resume oracle on the directory it leaves behind."""
+    import json as _json
+
+    hist, seed, op_index = item
+    name, kind, target, which, extra = hist
+    out = runs.scratch("c11kill")
+    env = dict(os.environ)
+    env["PYTHONPATH"] = core_repo() + os.pathsep + env.get("PYTHONPATH", "")
+    env["NESSAI_REPO"] = core_repo()
+    p = subprocess.run(
+        [sys.executable, os.path.join(os.path.dirname(os.path.dirname(os.path.abspath(__file__))), "mc", "c11_child.py"), kind, target, str(which), str(op_index), out, str(seed), _json.dumps(extra)],
+        env=env, capture_output=True, text=True, timeout=600,
+    )
+    errs = []
+    res = dict(name=name, op_index=op_index, rc=p.returncode, errs=errs)
+    if p.returncode not in (137, 138):
+        shutil.rmtree(out, ignore_errors=True)
+        res["harness"] = f"child exited with {p.returncode}: {p.stderr[-300:]}"
+        return res
+    kw = base_kwargs(kind, seed, extra)
+    snap = faultfs.snapshot(out)
+    res["files"] = sorted(snap)
+    r = try_resume(snap, kind, kw, out, continue_run=True)
+    if not r["ok"]:
+        errs.append((f"unresumable-after-real-kill:{name}@op{op_index}", r["err"]))
+    elif r["cont"]:
+        errs.append((f"cannot-continue-after-real-kill:{name}@op{op_index}", str(r["cont"][0])))
+    res["iteration"] = r.get("iteration")
+    shutil.rmtree(out, ignore_errors=True)
+    return res
+
+
+def core_repo():
+    from mc import core
+
+    return core.REPO
+
+
+def second_crash_worker(item):
+    """Thorough: crash, resume, run to the next checkpoint, crash again (operation boundaries)."""
+    from nessai.flowsampler import FlowSampler
+    import nessai.samplers.base as sbase
+
+    hist, seed = item
+    name, kind, target, which, extra = hist
+    errs = []
+    n = 0
+    work = None
+    try:
+        rec = record(hist, seed)
+        kw = rec["kw"]
+        work = rec["out"]
+        firsts = [(lab, img) for lab, img in faultfs.crash_images(rec["pre"], rec["ops"], prefix_step=10 ** 9) if "+prefix" not in lab or lab.endswith("+prefix0/0")]
+        for lab1, img1 in firsts:
+            faultfs.materialise(img1, work)
+            runs.reset_globals()
+            rec2 = faultfs.Recorder(work)
+            state = dict(pre=None, post=None, n=0)
+            o_dump = sbase.safe_file_dump
+
+            def dump(*a, **k):
+                state["n"] += 1
+                if state["n"] != 1:
+                    return o_dump(*a, **k)
+                state["pre"] = faultfs.snapshot(work)
+                rec2.active = True
+                try:
+                    r = o_dump(*a, **k)
+                finally:
+                    rec2.active = False
+                state["post"] = faultfs.snapshot(work)
+                raise Done()
+
+            sbase.safe_file_dump = dump
+            try:
+                with rec2.recording():
+                    try:
+                        fs = FlowSampler(make("G2"), output=work, resume=True, **copy.deepcopy(kw))
+                        fs.run(plot=False, save=False)
+                        continue  # finished without another checkpoint
+                    except Done:
+                        pass
+                    except Exception as e:
+                        errs.append((f"second-leg-raises-{type(e).__name__}:{name}", f"after first crash '{lab1}': {e}"))
+                        continue
+            finally:
+                sbase.safe_file_dump = o_dump
+            for lab2, img2 in faultfs.crash_images(state["pre"], rec2.ops, prefix_step=10 ** 9):
+                if "+prefix" in lab2 and not lab2.endswith("/0"):
+                    continue
+                r = try_resume(img2, kind, kw, work, continue_run=False)
+                n += 1
+                if not r["ok"]:
+                    errs.append((f"unresumable-after-second-crash:{name}", f"first crash '{lab1}', second crash '{lab2}': {r['err']}"))
+    except Exception as e:
+        return dict(name=name, errs=[], n=0, harness=f"{type(e).__name__}: {e}")
+    finally:
+        if work:
+            shutil.rmtree(work, ignore_errors=True)
+    seen, viol = set(), []
+    for k, d in errs:
+        if k not in seen:
+            seen.add(k)
+            viol.append((k, d, {"hist": list(hist[:4]) + [hist[4]], "case": d}))
+    return dict(name=name, errs=viol, n=n)
+
+
+def history_ops(item):
+    """Number of operation boundaries of a history as seen by the real-kill child's counter."""
+    hist, seed = item
+    rec = record(hist, seed)
+    shutil.rmtree(rec["out"], ignore_errors=True)
+    n = 0
+    for op in rec["ops"]:
+        n += 1 if op[0] != "flush" else 0
+    return n
+
+
 def run(ctx):
     step = 256 if ctx.quick else 16
     hists = HISTORIES if not ctx.quick else [h for h in HISTORIES if h[0] not in ("std:weights#3", "ins:checkpoint#3,save_existing")]
@@ -257,6 +377,29 @@ def run(ctx):
         for v in res["errs"]:
             ctx.violation(*v)
         ctx.sample({"history": res["name"], "file_operations": res["ops"][:12], "crash_images": res["n"]}, limit=12)
+    if not ctx.quick:
+        # real kills at every operation boundary of every history
+        n_ops = {}
+        for it, res in ctx.pmap(history_ops, [(h, ctx.seed) for h in hists]):
+            n_ops[it[0][0]] = res
+        kills = [(h, ctx.seed, i) for h in hists for i in range(n_ops[h[0]] + 1)]
+        validated = 0
+        for it, res in ctx.pmap(real_kill_worker, kills, nproc=12):
+            if res.get("harness"):
+                raise RuntimeError(f"real-kill child failed: {res['harness']} for {it}")
+            ctx.count("evaluations")
+            validated += 1
+            for k, d in res["errs"]:
+                ctx.violation(k, d, {"hist": list(it[0][:4]) + [it[0][4]], "case": d})
+        ctx.set("traces_validated_against_impl", validated)
+        two = [h for h in hists if h[2] == "dump"]
+        for it, res in ctx.pmap(second_crash_worker, [(h, ctx.seed) for h in two]):
+            if res.get("harness"):
+                raise RuntimeError(f"two-crash history failed: {res['harness']}")
+            ctx.count("evaluations", res["n"])
+            ctx.count("two_crash_images", res["n"])
+            for v in res["errs"]:
+                ctx.violation(*v)
     ctx.set("distinct_nontrivial", total_classes)
     ctx.set("histories", len(hists))
     ctx.set("rule", "for each history (checkpoint #k / weights save #k of a real standard or INS run, with and without keeping the previous checkpoint) every crash point of the recorded file-operation log: before each op, after the last, and for a file open for writing every byte prefix on a lattice (0, 1, n/2, n-1, n and every `prefix_step` bytes). Distinct/non-trivial: distinct (loaded sampler state, loaded weights) classes over all images, each additionally continued to completion under the C01/C03 monitors and the C05 oracle")
